@@ -18,6 +18,9 @@ A payload descriptor is a dict:
                 ("section", n)                n synchronous sections with a scheduling point
                                               inside (overlap detector of C11)
                 ("service", descriptor)       create an instance of a fresh @service class
+                ("service-drop",)             drop the reference to the service created last
+                ("adopt-many", descriptor, k) adopt the very same callable k times
+                ("adopt-own-loop", descriptor)   adopt from inside asyncio.run() of this thread
                 ("call", name)                call env.shared[name](env)
 ``cleanup``   None | ("sync", k) | ("shield", seconds) | ("sync-adopt", descriptor) |
               ("shield-adopt", seconds, descriptor)      (what its ``finally`` does)
@@ -41,6 +44,10 @@ class UserBaseError(BaseException):
     pass
 
 
+class UserTimeout(TimeoutError):
+    pass
+
+
 def make_exception(kind: str):
     if kind == "LookupError":
         return LookupError("boom")
@@ -54,6 +61,10 @@ def make_exception(kind: str):
         return StopIteration("boom")
     if kind == "StopAsyncIteration":
         return StopAsyncIteration("boom")
+    if kind == "TimeoutError":
+        return TimeoutError("boom")
+    if kind == "UserTimeout":
+        return UserTimeout("boom")
     if kind == "ExceptionGroup":
         return ExceptionGroup("boom", [ValueError("inner")])
     if kind == "asyncio.CancelledError":
@@ -170,6 +181,33 @@ class Kit:
             raise exc
         if op == "adopt":
             self.submit(step[1], "adopt")
+            return True
+        if op == "adopt-many":
+            # the very same callable adopted several times (no arguments): each is a payload
+            payload = self.payload(step[1])
+            for _ in range(step[2]):
+                self.env.log("adopt-call", id=step[1]["id"])
+                try:
+                    result = self.runtime.adopt(payload, flavour=FLAVOURS[step[1]["flavour"]])
+                except BaseException as err:  # noqa: B036
+                    self.env.log("adopt-raised", id=step[1]["id"], exc=err)
+                    if isinstance(err, _abort_type()):
+                        raise
+                else:
+                    self.env.log("adopt-returned", id=step[1]["id"], value=result)
+            return True
+        if op == "adopt-own-loop":
+            # adopt from a thread that runs an event loop of its own
+            async def inner():
+                self.submit(step[1], "adopt")
+
+            asyncio.run(inner())
+            return True
+        if op == "service-drop":
+            keep = self.env.shared.setdefault("keep", [])
+            if keep:
+                keep.pop()
+            self.env.log("service-drop")
             return True
         if op == "service":
             self.env.log("service-create", id=step[1]["id"])
